@@ -39,11 +39,9 @@ Barrier = BarrierType()
 
 
 def _to_naive_utc_time(value: dt.datetime | None) -> dt.datetime | None:
-    return (
-        value.astimezone(dt.timezone.utc).replace(tzinfo=None)
-        if value and value.tzinfo
-        else value
-    )
+    # A naive datetime denotes local time (as produced by the file stores), so it is
+    # converted as well; astimezone honours its fold attribute.
+    return value.astimezone(dt.timezone.utc).replace(tzinfo=None) if value else value
 
 
 def _get_stale_scope(call: Call, registry: Registry) -> tuple:
